@@ -510,6 +510,18 @@ impl Property for C14 {
             }
         }
         lines.push(Line::model("adump 1", entries_line(&toks)));
+        // specification (C07, and C14's "a store containing every acknowledged write"): in the store handed
+        // back, a document is writable iff its write capability was ever imported since it was created —
+        // an acknowledged upgrade is never lost, whatever was imported afterwards
+        {
+            let mut v = vec![];
+            for item in store.list_namespaces()? {
+                let (id, kind) = item?;
+                v.push((hex(id.as_bytes()), match kind { iroh_docs::CapabilityKind::Write => 1, iroh_docs::CapabilityKind::Read => 2 }));
+            }
+            v.sort();
+            lines.push(Line::oracle("scaps 1", format!("namespaces {}", v.iter().map(|(n, k)| format!("{n}={k}")).collect::<Vec<_>>().join(";"))));
+        }
         Ok(lines)
     }
     fn features(&self, ops: &[Op], lines: &[Line]) -> Vec<String> {
